@@ -11,9 +11,9 @@ from .. import common, build
 from ..common import Check, log
 
 LIB_S = """(define-library (t s)
-  (export x1 x2 (rename hid x3) p:x4)
+  (export x1 x2 (rename hid x3) p:x4 p:)
   (import (scheme base))
-  (begin (define x1 'v1) (define x2 'v2) (define hid 'v3) (define p:x4 'v4) (define x9 'private)))
+  (begin (define x1 'v1) (define x2 'v2) (define hid 'v3) (define p:x4 'v4) (define p: 'v5) (define x9 'private)))
 """
 LIB_A = """(define-library (t a)
   (export a1 (rename hidden a3) m1 get inc! load-count)
@@ -44,8 +44,8 @@ LIB_C = """(define-library (t c)
   (begin (define c1 (list 'c z:a1)) (define (cget) (z:get))))
 """
 
-BASE = {"x1": "v1", "x2": "v2", "x3": "v3", "p:x4": "v4"}
-ABSENT = ["hid", "x9", "r1", "r2", "q:x1", "x4", "q:p:x4", "car"]   # names that must stay unbound unless the algebra says otherwise
+BASE = {"x1": "v1", "x2": "v2", "x3": "v3", "p:x4": "v4", "p:": "v5"}     # `p:` is spelled exactly like the prefix that drop-prefix removes
+ABSENT = ["hid", "x9", "r1", "r2", "q:x1", "x4", "q:p:x4", "car", "||", "q:", "q:p:"]   # names that must stay unbound unless the algebra says otherwise
 
 
 def options(ids):
